@@ -139,6 +139,7 @@ type Stats struct {
 	Stubs            map[string]int
 	MaxPathSteps     int64
 	IfConverted      int
+	Truncated        int // enumerations cut to three representative values
 }
 
 func newStats() *Stats {
@@ -180,6 +181,7 @@ type Engine struct {
 	initPkgs        []string
 	spec            bool
 	tick            uint64
+	truncEnum       bool // set around concretizations that may be truncated (slice bounds, lengths)
 	lastIfPos       token.Pos
 	deadline        time.Time
 	deadlineHit     bool
@@ -508,6 +510,15 @@ func (e *Engine) concretize(t *Term, cap int) (uint64, bool) {
 			overflow = true
 			break
 		}
+	}
+	if overflow && e.truncEnum && len(vals) > cap {
+		// more feasible values than the cap: continue with three of the values found (smallest,
+		// median, largest) instead of dropping the path; the rest of the range is outside the
+		// exploration and counted in evidence (enumerations_truncated)
+		sort.Slice(vals, func(i, j int) bool { return vals[i] < vals[j] })
+		vals = []uint64{vals[0], vals[len(vals)/2], vals[len(vals)-1]}
+		e.stats.Truncated++
+		overflow = false
 	}
 	if overflow {
 		d := Decision{kind: DecEnum, n: 1, overflow: true, forced: true}
